@@ -121,15 +121,11 @@ def _layer(args1, args2, base, unions=True):
 def type_universe(tier, seed):
     """Closed universe: all terms of depth <= 1 over the base, all unary constructors at depth 2,
     binary constructors at depth 2 with one depth-1 argument and one base argument (exhaustive for
-    the reduced base in the quick tier, seeded sample under a cap in the thorough tier).
+    a seeded sample under a cap: 90 terms in the quick tier, 520 in the thorough tier).
     Terms are read back from the real typing objects, so Union normalisation is Python's."""
     rng = random.Random(seed)
-    if tier == "thorough":
-        base = [T(k) for k in ("int", "bool", "str", "A", "B", "any")]
-        cap2 = 330
-    else:
-        base = [T(k) for k in ("int", "bool", "str", "B", "any")]
-        cap2 = 90
+    base = [T(k) for k in ("int", "bool", "str", "A", "B", "any")]
+    cap2 = 520 if tier == "thorough" else 90
     bare = [T("list"), T("dict"), T("tuple")]
     d0 = base + [T("none")]
     d1 = _layer(base, base, base) + bare
@@ -165,3 +161,567 @@ def _dedup(terms):
         seen[obj] = True
         out.append(to_term(obj))
     return out
+
+
+# =============================================================================================
+# Part 2: programs
+# =============================================================================================
+INT, STR, BOOL = T("int"), T("str"), T("bool")
+NONE = "~none"
+
+
+def fn(name, inputs=(), outputs=(), emit=(), wait_for=(), defaults=(), types=None):
+    """Function node.  types: {value name: term} for annotated parameters / outputs."""
+    types = types or {}
+    return {"name": name, "kind": "func", "inputs": list(inputs), "outputs": list(outputs), "emit": list(emit),
+            "wait_for": list(wait_for), "defaults": [[p, v] for p, v in defaults], "targets": [], "multi": False,
+            "intypes": [[p, types[p]] for p in inputs if p in types],
+            "outtypes": [[o, types[o]] for o in outputs if o in types], "sub": []}
+
+
+def route(name, inputs, targets, multi=False, emit=(), wait_for=(), defaults=(), types=None):
+    n = fn(name, inputs, (), emit, wait_for, defaults, types)
+    n.update(kind="route", targets=list(targets), multi=multi)
+    return n
+
+
+def ifelse(name, inputs, when_true, when_false, emit=(), wait_for=(), defaults=(), types=None):
+    n = fn(name, inputs, (), emit, wait_for, defaults, types)
+    n.update(kind="ifelse", targets=[when_true, when_false])
+    return n
+
+
+def gnode(name, sub):
+    n = fn(name)
+    n.update(kind="graph", sub=[sub])
+    return n
+
+
+def edge(src, dst, vals=None):
+    return {"src": src, "dst": dst, "auto": vals is None, "vals": list(vals or [])}
+
+
+def prog(nodes, name=NONE, strict=False, edges=None):
+    return {"name": name, "strict": strict, "explicit": edges is not None, "edges": list(edges or []),
+            "nodes": list(nodes), "lex": []}
+
+
+def outs(n):
+    return list(n["outputs"]) + list(n["emit"])
+
+
+def finalize(p):
+    """Derive the interface of graph nodes from their inner program and spell every name."""
+    p = copy.deepcopy(p)
+    for n in p["nodes"]:
+        if n["kind"] == "graph":
+            n["sub"] = [finalize(n["sub"][0])]
+            q = n["sub"][0]
+            produced = {o for m in q["nodes"] for o in outs(m)}
+            ins, it = [], {}
+            for m in q["nodes"]:
+                for x in m["inputs"]:
+                    if x not in produced and x not in ins:
+                        ins.append(x)
+                        it[x] = dict(map(tuple_pair, m["intypes"])).get(x)
+            os_, ot = [], {}
+            for m in q["nodes"]:
+                for o in outs(m):
+                    if o not in os_:
+                        os_.append(o)
+                    ot[o] = dict(map(tuple_pair, m["outtypes"])).get(o)
+            n["inputs"], n["outputs"], n["emit"] = ins, os_, []
+            n["intypes"] = [[x, it[x]] for x in ins if it.get(x)]
+            n["outtypes"] = [[o, ot[o]] for o in os_ if ot.get(o)]
+    names = set()
+    if p["name"] != NONE:
+        names.add(p["name"])
+    for n in p["nodes"]:
+        names.add(n["name"])
+        names.update(outs(n))
+    p["lex"] = [[s, list(s)] for s in sorted(names)]
+    return p
+
+
+def tuple_pair(pr):
+    return (pr[0], pr[1])
+
+
+def struct_hash(obj):
+    import hashlib
+    return hashlib.sha256(json.dumps(obj, sort_keys=True).encode()).hexdigest()[:24]
+
+
+def level(p, path):
+    """The (sub-)program at `path` (list of node indices of graph nodes)."""
+    for i in path:
+        p = p["nodes"][i]["sub"][0]
+    return p
+
+
+def levels(p, path=()):
+    yield tuple(path)
+    for i, n in enumerate(p["nodes"]):
+        if n["kind"] == "graph":
+            yield from levels(n["sub"][0], tuple(path) + (i,))
+
+
+# ---------------------------------------------------------------------------------------------
+# valid base programs
+# ---------------------------------------------------------------------------------------------
+def typed(names, t=INT, **over):
+    d = {x: t for x in names}
+    d.update(over)
+    return d
+
+
+def base_programs():
+    """(tag, program) pairs; every program is valid by construction (and judged by Validate.tla)."""
+    P = []
+    P.append(("chain2", prog([fn("a", ["x"], ["y"]), fn("b", ["y"], ["z"])])))
+    P.append(("chain3-fanin", prog([fn("a", ["x"], ["y"]), fn("b", ["y"], ["z"]), fn("c", ["y", "z"], ["w"])], name="g1")))
+    P.append(("multi-out", prog([fn("a", ["x"], ["y", "z"]), fn("b", ["y"], ["w"]), fn("c", ["z"], [])])))
+    P.append(("ifelse-mutex", prog([ifelse("g", ["x"], "a", "b"), fn("a", ["x"], ["r"]), fn("b", ["x"], ["r"]),
+                                    fn("c", ["r"], ["w"])])))
+    P.append(("route3-end", prog([route("g", ["x"], ["a", "b", "END"]), fn("a", ["x"], ["r"]), fn("b", ["x"], ["r"])])))
+    P.append(("route1-end", prog([route("g", ["x"], ["a", "END"]), fn("a", ["x"], ["y"])])))
+    P.append(("route1", prog([fn("a", ["x"], ["y"]), route("g", ["y"], ["b"]), fn("b", ["y"], ["z"])])))
+    P.append(("route-multi", prog([route("g", ["x"], ["a", "b"], multi=True), fn("a", ["x"], ["r"]), fn("b", ["x"], ["s"])])))
+    P.append(("branch-reach", prog([ifelse("g", ["x"], "a", "b"), fn("a", ["x"], ["u"]), fn("b", ["x"], ["v"]),
+                                    fn("c", ["u"], ["r"]), fn("d", ["v"], ["r"])])))
+    P.append(("branch-shared-feed", prog([ifelse("g", ["s"], "a", "b"), fn("a", ["s"], ["x"]), fn("b", ["s"], ["x", "t"]),
+                                          fn("c", ["x"], ["y"]), fn("d", ["t"], ["q"])])))
+    P.append(("emit-wait-cycle", prog([fn("gq", ["m"], ["q"]), fn("aq", ["m", "q"], ["m"], emit=["qd"]),
+                                       fn("gr", ["m"], ["rs"]), fn("ar", ["m", "rs"], ["m"], wait_for=["qd"])])))
+    P.append(("emit-wait-2", prog([fn("a", ["x"], ["m"], emit=["e"]), fn("b", ["x"], ["m"], wait_for=["e"])])))
+    P.append(("ordered-by-data", prog([fn("a", ["x"], ["m", "t"]), fn("b", ["t"], ["m"])])))
+    P.append(("gate-emit", prog([route("g", ["x"], ["a", "END"], emit=["ge"]), fn("a", ["x"], ["y"]),
+                                 fn("b", ["x"], ["z"], wait_for=["ge"])])))
+    P.append(("wait-on-data", prog([fn("a", ["x"], ["y"]), fn("b", ["x"], ["z"], wait_for=["y"])])))
+    P.append(("defaults", prog([fn("a", ["x", "k"], ["y"], defaults=[("k", "d1")]),
+                                fn("b", ["y", "k"], ["z"], defaults=[("k", "d1")]),
+                                fn("c", ["z", "j"], ["w"])])))
+    P.append(("defaults-gate", prog([ifelse("g", ["x", "k"], "a", "END", defaults=[("k", "d1")]),
+                                     fn("a", ["x", "k"], ["y"], defaults=[("k", "d1")])])))
+    inner = prog([fn("p", ["x"], ["y"]), fn("q", ["y", "k"], ["z"], defaults=[("k", "d1")])], name="inner")
+    P.append(("nested", prog([fn("a", ["u"], ["x"]), gnode("inner", inner), fn("c", ["z", "k"], ["w"], defaults=[("k", "d1")])],
+                             name="outer")))
+    inner2 = prog([ifelse("g", ["x"], "p", "q"), fn("p", ["x"], ["r"]), fn("q", ["x"], ["r"], emit=["e"]),
+                   fn("s", ["r"], ["v"], wait_for=["e"])], name="sub")
+    P.append(("nested-gate", prog([gnode("n", inner2), fn("c", ["v"], ["w"])])))
+    inner3 = prog([gnode("deep", prog([fn("p", ["x"], ["y"])], name="deep")), fn("q", ["y"], ["z"])], name="mid")
+    P.append(("nested2", prog([gnode("mid", inner3), fn("c", ["z"], ["w"])], name="top")))
+    P.append(("explicit-cycle", prog([fn("aq", ["m", "q"], ["m"]), fn("gen", ["m"], ["rs"]), fn("ar", ["m", "rs"], ["m"])],
+                                     edges=[edge("aq", "gen"), edge("gen", "ar"), edge("ar", "aq")])))
+    P.append(("explicit-vals", prog([fn("a", ["x"], ["m", "t"]), fn("b", ["m", "t"], ["m"]), fn("c", ["m"], ["w"])],
+                                    edges=[edge("a", "b", ["m", "t"]), edge("b", "c", ["m"])])))
+    P.append(("explicit-ordering", prog([fn("a", ["x"], ["m"]), fn("b", ["x"], ["m"]), fn("c", ["m"], ["w"])],
+                                        edges=[edge("a", "b"), edge("b", "c")])))
+    P.append(("explicit-gate", prog([ifelse("g", ["x"], "a", "b"), fn("a", ["x"], ["r"]), fn("b", ["x"], ["r"]),
+                                     fn("c", ["r"], ["w"])], edges=[edge("a", "c"), edge("b", "c", ["r"])])))
+    # strict mode
+    P.append(("strict-chain", prog([fn("a", ["x"], ["y"], types=typed("xy")),
+                                    fn("b", ["y"], ["z"], types=typed("y", z=STR)),
+                                    fn("c", ["z", "y"], ["w"], types=typed("w", z=STR, y=T("union", INT, STR)))],
+                                   strict=True)))
+    P.append(("strict-mutex", prog([ifelse("g", ["x"], "a", "b", types=typed("x")),
+                                    fn("a", ["x"], ["r"], types=typed("xr")),
+                                    fn("b", ["x"], ["r"], types=typed("x", r=BOOL)),
+                                    fn("c", ["r"], ["w"], types=typed("rw"))], strict=True)))
+    P.append(("strict-multi-out", prog([fn("a", ["x"], ["y", "z"], types=typed("x", y=T("list", INT), z=T("B"))),
+                                        fn("b", ["y", "z"], ["w"], types=typed("w", y=T("list"), z=T("A")))],
+                                       strict=True)))
+    P.append(("strict-unannotated-input", prog([fn("a", ["x"], ["y"], types=typed("y")),
+                                                fn("b", ["y", "s"], ["z"], types=typed("y"))], strict=True)))
+    sinner = prog([fn("p", ["x"], ["y"], types=typed("x", y=T("list", INT)))], name="si", strict=True)
+    P.append(("strict-nested", prog([fn("a", ["u"], ["x"], types=typed("u", x=BOOL)), gnode("si", sinner),
+                                     fn("c", ["y"], ["w"], types=typed("w", y=opt(T("list"))))], strict=True)))
+    P.append(("strict-explicit", prog([fn("a", ["x"], ["m"], types=typed("xm")), fn("b", ["m"], ["m"], types=typed("m")),
+                                       fn("c", ["m"], ["w"], types=typed("w", m=T("any")))],
+                                      edges=[edge("a", "b"), edge("b", "c", ["m"])], strict=True)))
+    P.append(("strict-emit-wait", prog([fn("a", ["x"], ["y"], emit=["e"], types=typed("xy")),
+                                        fn("b", ["x"], ["z"], wait_for=["e"], types=typed("xz"))], strict=True)))
+    P.append(("strict-wait-with-data", prog([fn("a", ["x"], ["y"], emit=["e"], types=typed("xy")),
+                                             fn("b", ["y"], ["z"], wait_for=["e"], types=typed("yz"))], strict=True)))
+    return P
+
+
+def probe_programs():
+    """Fixed programs judged as they are (no flaw is applied): patterns whose verdict must not depend on the
+    node order, and the documented three-node patterns of an exclusive gate whose targets share an output."""
+    P = []
+    P.append(("accumulate-or-reset", prog([ifelse("g", ["flag"], "add", "reset"), fn("add", ["m", "v"], ["m"]),
+                                           fn("reset", ["v"], ["m"])])))
+    P.append(("reset-or-accumulate", prog([ifelse("g", ["flag"], "add", "reset"), fn("reset", ["v"], ["m"]),
+                                           fn("add", ["m", "v"], ["m"])])))
+    P.append(("loop-inc-or-dec", prog([ifelse("gate", ["state"], "inc", "dec"), fn("inc", ["state"], ["state"]),
+                                       fn("dec", ["state"], ["state"])])))
+    for order in ("gabcd", "gbacd"):
+        nd = {"g": ifelse("g", ["s"], "a", "b"), "a": fn("a", ["s"], ["x"]), "b": fn("b", ["s"], ["x", "t"]),
+              "c": fn("c", ["x"], ["y"]), "d": fn("d", ["t"], ["y"])}
+        P.append(("shared-feed-" + order, prog([nd[k] for k in order])))
+    for order in ("gabc", "gbac"):
+        nd = {"g": ifelse("g", ["s"], "a", "b", types=typed("s")), "a": fn("a", ["s"], ["x"], types=typed("sx")),
+              "b": fn("b", ["s"], ["x"], types=typed("s", x=STR)), "c": fn("c", ["x"], ["y"], types=typed("xy"))}
+        P.append(("strict-second-producer-" + order, prog([nd[k] for k in order], strict=True)))
+    return P
+
+
+# ---------------------------------------------------------------------------------------------
+# single injected flaws
+# ---------------------------------------------------------------------------------------------
+BAD_NAMES = ["1x", "a-b", "a b", "class", "END", "a.b", "a/b"]
+BAD_NAMES_QUICK = ["1x", "class", "END", "a.b"]
+BAD_TYPES = [STR, NOANN, T("list", INT), T("union", INT, STR)]
+BAD_TYPES_QUICK = [STR, NOANN]
+
+
+def _rename_node(p, i, new):
+    old = p["nodes"][i]["name"]
+    p["nodes"][i]["name"] = new
+    for n in p["nodes"]:
+        n["targets"] = [new if t == old else t for t in n["targets"]]
+    for e in p["edges"]:
+        if e["src"] == old:
+            e["src"] = new
+        if e["dst"] == old:
+            e["dst"] = new
+
+
+def _rename_out(p, i, field, k, new, follow_waits):
+    n = p["nodes"][i]
+    old = n[field][k]
+    n[field][k] = new
+    if field == "outputs":
+        n["outtypes"] = [[new if o == old else o, t] for o, t in n["outtypes"]]
+    if follow_waits:
+        for m in p["nodes"]:
+            m["wait_for"] = [new if w == old else w for w in m["wait_for"]]
+
+
+def _set_type(n, field, x, t):
+    prs = [pr for pr in n[field] if pr[0] != x]
+    if t["k"] != "~none":
+        prs.append([x, t])
+    n[field] = prs
+
+
+def flaws_at(p, path, quick):
+    """Yield (flaw description, mutated whole program).  `p` is the whole (unfinalised) program,
+    the mutation is applied to the level at `path`.  Whether a mutation really makes the program
+    invalid is decided by Validate.tla, not here."""
+    L = level(p, path)
+    bad_names = BAD_NAMES_QUICK if quick else BAD_NAMES
+    bad_types = BAD_TYPES_QUICK if quick else BAD_TYPES
+
+    def mut(kind, **info):
+        q = copy.deepcopy(p)
+        return {"kind": kind, "path": list(path), **info}, q, level(q, path)
+
+    all_outs = sorted({o for n in L["nodes"] for o in outs(n)})
+    for i, n in enumerate(L["nodes"]):
+        # -- gates
+        if n["kind"] in ("route", "ifelse"):
+            for k in range(len(n["targets"])):
+                d, q, l = mut("gate-unknown-target", node=i, how="replace", pos=k)
+                l["nodes"][i]["targets"][k] = "zz"
+                yield d, q
+                if n["targets"][k] != "END":
+                    d, q, l = mut("gate-self-target", node=i, how="replace", pos=k)
+                    l["nodes"][i]["targets"][k] = n["name"]
+                    yield d, q
+            if n["kind"] == "route":
+                d, q, l = mut("gate-unknown-target", node=i, how="add")
+                l["nodes"][i]["targets"].append("zz")
+                yield d, q
+                d, q, l = mut("gate-self-target", node=i, how="add")
+                l["nodes"][i]["targets"].append(n["name"])
+                yield d, q
+                d, q, l = mut("multi-target-flip", node=i)
+                l["nodes"][i]["multi"] = not n["multi"]
+                yield d, q
+        # -- node names
+        for j, m in enumerate(L["nodes"]):
+            if j != i:
+                d, q, l = mut("duplicate-node-name", node=i, other=j)
+                l["nodes"][i]["name"] = m["name"]
+                yield d, q
+        for s in bad_names:
+            d, q, l = mut("illegal-node-name", node=i, name=s)
+            _rename_node(l, i, s)
+            yield d, q
+        # -- outputs: duplicate producers and illegal names
+        if n["kind"] != "graph":
+            for field in ("outputs", "emit"):
+                for k, o in enumerate(n[field]):
+                    own = set(outs(n)) | set(n["wait_for"])
+                    for o2 in all_outs:
+                        if o2 != o and o2 not in own:
+                            d, q, l = mut("duplicate-producer", node=i, field=field, pos=k, name=o2)
+                            _rename_out(l, i, field, k, o2, follow_waits=False)
+                            yield d, q
+                    for s in bad_names:
+                        d, q, l = mut("illegal-output-name", node=i, field=field, pos=k, name=s)
+                        _rename_out(l, i, field, k, s, follow_waits=True)
+                        yield d, q
+            # -- defaults
+            dfl = dict(map(tuple_pair, n["defaults"]))
+            for x in n["inputs"]:
+                if x in dfl:
+                    d, q, l = mut("default-dropped", node=i, param=x)
+                    l["nodes"][i]["defaults"] = [pr for pr in n["defaults"] if pr[0] != x]
+                    yield d, q
+                    d, q, l = mut("default-changed", node=i, param=x)
+                    l["nodes"][i]["defaults"] = [[a, "d2" if a == x else v] for a, v in n["defaults"]]
+                    yield d, q
+                else:
+                    d, q, l = mut("default-added", node=i, param=x)
+                    l["nodes"][i]["defaults"] = n["defaults"] + [[x, "d1"]]
+                    yield d, q
+            # -- wait_for
+            d, q, l = mut("wait-for-unproduced", node=i, how="add")
+            l["nodes"][i]["wait_for"] = n["wait_for"] + ["nosuch"]
+            yield d, q
+            for k in range(len(n["wait_for"])):
+                d, q, l = mut("wait-for-unproduced", node=i, how="replace", pos=k)
+                l["nodes"][i]["wait_for"][k] = "nosuch"
+                yield d, q
+    # -- graph name
+    for s in ("g.x", "g/x", "g-x", "1g"):
+        d, q, l = mut("illegal-graph-name", name=s)
+        l["name"] = s
+        yield d, q
+    # -- explicit edges
+    if L["explicit"]:
+        byname = {n["name"]: n for n in L["nodes"]}
+        for k, e in enumerate(L["edges"]):
+            for end in ("src", "dst"):
+                d, q, l = mut("edge-unknown-node", edge=k, end=end)
+                l["edges"][k][end] = "zz"
+                yield d, q
+            src, dst = byname[e["src"]], byname[e["dst"]]
+            cands = ["nov"] + [o for o in outs(src) if o not in dst["inputs"]][:1] + [x for x in dst["inputs"] if x not in outs(src)][:1]
+            for v in cands:
+                d, q, l = mut("edge-unknown-value", edge=k, value=v)
+                cur = [x for x in dst["inputs"] if x in outs(src)] if e["auto"] else list(e["vals"])
+                l["edges"][k]["auto"] = False
+                l["edges"][k]["vals"] = cur + [v]
+                yield d, q
+    # -- strict mode
+    if L["strict"]:
+        for i, n in enumerate(L["nodes"]):
+            if n["kind"] == "graph":
+                continue
+            for x in n["inputs"]:
+                for t in bad_types:
+                    d, q, l = mut("consumer-type", node=i, value=x, type=term_text(t) if t["k"] != "~none" else "none")
+                    _set_type(l["nodes"][i], "intypes", x, t)
+                    yield d, q
+            for o in n["outputs"]:
+                for t in bad_types:
+                    d, q, l = mut("producer-type", node=i, value=o, type=term_text(t) if t["k"] != "~none" else "none")
+                    if t["k"] == "~none":
+                        l["nodes"][i]["outtypes"] = []   # one return annotation per function
+                    else:
+                        _set_type(l["nodes"][i], "outtypes", o, t)
+                    yield d, q
+    else:
+        d, q, l = mut("strict-on-unannotated")
+        l["strict"] = True
+        yield d, q
+
+
+def permutations_of(p, limit, rng):
+    """Node-list permutations of the top level (the verdict must not depend on the order)."""
+    n = len(p["nodes"])
+    perms = list(itertools.permutations(range(n)))
+    if len(perms) > limit:
+        keep = [perms[0], perms[-1]] + rng.sample(perms[1:-1], max(0, limit - 2))
+        perms = keep[:limit]
+    for pm in perms:
+        q = copy.deepcopy(p)
+        q["nodes"] = [q["nodes"][i] for i in pm]
+        yield list(pm), q
+
+
+# ---------------------------------------------------------------------------------------------
+# seeded random flat programs (valid or not: the specification decides)
+# ---------------------------------------------------------------------------------------------
+SMALL_TYPES = [INT, BOOL, STR, T("list", INT), T("list"), T("union", INT, STR), T("any"), opt(INT), T("B"), T("A")]
+
+
+def random_program(rng):
+    k = rng.randint(2, 5)
+    names = ["a", "b", "c", "d", "g", "h"][:k] if rng.random() < 0.5 else rng.sample(["a", "b", "c", "d", "g", "h"], k)
+    vals = ["x", "y", "z", "s"]
+    sigs = ["e1", "e2"]
+    strict = rng.random() < 0.3
+    nodes = []
+    for nm in names:
+        ins = rng.sample(vals, rng.randint(0, 2))
+        r = rng.random()
+        ty = {}
+        if strict:
+            ty = {x: rng.choice(SMALL_TYPES) for x in vals if rng.random() < 0.92}
+            if rng.random() < 0.6:
+                ty = {x: (INT if rng.random() < 0.8 else t) for x, t in ty.items()}
+        dfl = [(x, rng.choice(["d1", "d1", "d2"])) for x in ins if rng.random() < 0.2]
+        emit = [rng.choice(sigs)] if rng.random() < 0.25 else []
+        wf = [w for w in ([rng.choice(sigs + vals)] if rng.random() < 0.25 else []) if w not in emit and w not in ins]
+        if r < 0.3 and k >= 2:
+            pool = [x for x in names if x != nm] + ["END"]
+            if rng.random() < 0.08:
+                pool.append("zz")
+            if rng.random() < 0.05:
+                pool.append(nm)
+            if rng.random() < 0.5 and len(pool) >= 2:
+                t1, t2 = rng.sample(pool, 2)
+                nodes.append(ifelse(nm, ins, t1, t2, emit=emit, wait_for=wf, defaults=dfl, types=ty))
+            else:
+                tg = rng.sample(pool, rng.randint(1, min(3, len(pool))))
+                nodes.append(route(nm, ins, tg, multi=rng.random() < 0.3, emit=emit, wait_for=wf, defaults=dfl, types=ty))
+        else:
+            os_ = [o for o in rng.sample(vals[:3], rng.choice([0, 1, 1, 1, 2]))]
+            tyo = dict(ty)
+            if strict and len(os_) > 1 and any(o not in tyo for o in os_):
+                for o in os_:
+                    tyo.pop(o, None)
+            n = fn(nm, ins, os_, emit=emit, wait_for=wf, defaults=dfl, types=ty)
+            n["outtypes"] = [[o, tyo[o]] for o in os_ if o in tyo]
+            nodes.append(n)
+    edges = None
+    if rng.random() < 0.25:
+        edges = []
+        for _ in range(rng.randint(1, 4)):
+            a, b = rng.sample(nodes, 2)
+            if rng.random() < 0.7:
+                edges.append(edge(a["name"], b["name"]))
+            else:
+                common = [x for x in b["inputs"] if x in outs(a)]
+                edges.append(edge(a["name"], b["name"], common or None))
+    if edges is not None:
+        # explicit mode: which producer an auto-wired wait_for edge starts from when the awaited name has
+        # several producers is not documented -> such waits are not generated
+        cnt = {}
+        for n in nodes:
+            for o in outs(n):
+                cnt[o] = cnt.get(o, 0) + 1
+        for n in nodes:
+            n["wait_for"] = [w for w in n["wait_for"] if cnt.get(w, 0) <= 1]
+    return prog(nodes, strict=strict, edges=edges)
+
+
+# ---------------------------------------------------------------------------------------------
+# IR -> real hypergraph objects
+# ---------------------------------------------------------------------------------------------
+class Rejected(Exception):
+    """Construction failed: stage = "node-ctor" | "graph-ctor", where = path of the graph level."""
+
+    def __init__(self, stage, where, exc):
+        super().__init__(f"{stage}@{where}: {type(exc).__name__}")
+        self.stage, self.where, self.exc = stage, where, exc
+
+
+def _callable_for(n, form):
+    dfl = dict(map(tuple_pair, n["defaults"]))
+    params = [x for x in n["inputs"] if x not in dfl] + [x for x in n["inputs"] if x in dfl]
+    src = "def body(" + ", ".join(f"{x}={dfl[x]!r}" if x in dfl else x for x in params) + "):\n    return None\n"
+    ns = {}
+    exec(src, ns)  # noqa: S102 - harness-generated node body
+    f = ns["body"]
+    ann = {x: to_py(t, form) for x, t in n["intypes"] if t["k"] != "~none"}
+    ot = dict(map(tuple_pair, n["outtypes"]))
+    if n["outputs"] and all(o in ot and ot[o]["k"] != "~none" for o in n["outputs"]):
+        if len(n["outputs"]) == 1:
+            ann["return"] = to_py(ot[n["outputs"][0]], form)
+        else:
+            ann["return"] = tuple[tuple(to_py(ot[o], form) for o in n["outputs"])]
+    f.__annotations__ = ann
+    return f
+
+
+def build(p, path="", form="U", check_interface=True):
+    """Build the program bottom-up with the public constructors; raises Rejected."""
+    import warnings
+
+    from hypergraph import END, Graph
+    from hypergraph.nodes.function import FunctionNode
+    from hypergraph.nodes.gate import IfElseNode, RouteNode
+
+    nodes = []
+    for n in p["nodes"]:
+        if n["kind"] == "graph":
+            inner = build(n["sub"][0], path + "/" + n["name"], form, check_interface)
+            try:
+                node = inner.as_node(name=n["name"])
+            except Exception as e:  # noqa: BLE001 - classified by the caller
+                raise Rejected("node-ctor", path, e) from e
+            if check_interface and (set(node.inputs) != set(n["inputs"]) or set(node.outputs) != set(n["outputs"])):
+                raise AssertionError(f"harness: derived interface of graph node {n['name']} differs: "
+                                     f"{node.inputs}/{node.outputs} vs {n['inputs']}/{n['outputs']}")
+            nodes.append(node)
+            continue
+        f = _callable_for(n, form)
+        kw = {"name": n["name"], "emit": tuple(n["emit"]) or None, "wait_for": tuple(n["wait_for"]) or None}
+        tg = [END if t == "END" else t for t in n["targets"]]
+        try:
+            with warnings.catch_warnings():
+                warnings.simplefilter("ignore")
+                if n["kind"] == "func":
+                    node = FunctionNode(f, output_name=tuple(n["outputs"]) or None, **kw)
+                elif n["kind"] == "route":
+                    node = RouteNode(f, targets=tg, multi_target=n["multi"], **kw)
+                else:
+                    node = IfElseNode(f, when_true=tg[0], when_false=tg[1], **kw)
+        except Exception as e:  # noqa: BLE001
+            raise Rejected("node-ctor", path, e) from e
+        nodes.append(node)
+    kw = {}
+    if p["explicit"]:
+        kw["edges"] = [(e["src"], e["dst"]) if e["auto"] else (e["src"], e["dst"], list(e["vals"])) for e in p["edges"]]
+    try:
+        with warnings.catch_warnings():
+            warnings.simplefilter("ignore")
+            return Graph(nodes, name=None if p["name"] == NONE else p["name"], strict_types=p["strict"], **kw)
+    except Exception as e:  # noqa: BLE001
+        raise Rejected("graph-ctor", path, e) from e
+
+
+def observe(p, form="U"):
+    """Outcome of constructing p with the real package (message texts are ignored)."""
+    from hypergraph.graph.validation import GraphConfigError
+    try:
+        build(p, form=form)
+    except Rejected as r:
+        e = r.exc
+        if r.stage == "graph-ctor" and isinstance(e, GraphConfigError):
+            how = "config-error"
+        elif r.stage == "node-ctor" and isinstance(e, (ValueError, TypeError)):
+            how = "node-constructor-error"
+        else:
+            how = "raw-error"
+        return {"accepted": False, "how": how, "exc": type(e).__module__ + "." + type(e).__name__,
+                "stage": r.stage, "where": r.where}
+    return {"accepted": True, "how": "accepted", "exc": "", "stage": "", "where": ""}
+
+
+def order_dependent(p, where):
+    """Does the accept/reject outcome of the level named by `where` change under some permutation of
+    its node list?  (Only the real constructors are consulted.)  Returns (bool, accepted perm, rejected perm)."""
+    names = [s for s in where.split("/") if s]
+    acc = rej = None
+    top = copy.deepcopy(p)
+    lv = top
+    for nm in names:
+        lv = next(n for n in lv["nodes"] if n["kind"] == "graph" and n["name"] == nm)["sub"][0]
+    orig = list(lv["nodes"])
+    for pm in itertools.permutations(range(len(orig))):
+        lv["nodes"] = [orig[i] for i in pm]
+        o = observe(top)
+        if o["accepted"]:
+            acc = acc or [orig[i]["name"] for i in pm]
+        elif o["where"] == where:
+            rej = rej or [orig[i]["name"] for i in pm]
+        if acc and rej:
+            return True, acc, rej
+    return False, acc, rej
